@@ -30,7 +30,7 @@ ASSUMPTIONS = ["chunk-size lines and chunk data are CRLF terminated (the only fo
                "blank-padded chunk sizes are not judged"]
 
 
-def decode_direct(data, frags):
+def decode_direct(data, frags, idle=(0,)):
     """Run parseChunk repeatedly over a bytearray fed in fragments. Returns (body, trails, parms, leftover) or raises."""
     raw = bytearray()
     body = bytearray()
@@ -39,13 +39,20 @@ def decode_direct(data, frags):
     it = iter(frags)
     gen = httping.parseChunk(raw)
     done = False
+    idle = tuple(idle) or (0,)
+    fed = skip = 0
     while not done:
         res = next(gen)
         if res is None:
+            if skip:             # resume the parser without new bytes
+                skip -= 1
+                continue
             try:
                 raw.extend(next(it))
             except StopIteration:
                 return None      # incomplete
+            skip = idle[fed % len(idle)]
+            fed += 1
             continue
         size, p, t, chunk = res
         gen.close()
@@ -76,7 +83,7 @@ def run_valid(case, r):
         data, parts = httpgen.chunked_body(spec)
         exp_parms = exp["parms"]
     frags = httpgen.fragments(data, case["cuts"])
-    got = decode_direct(data, frags)
+    got = decode_direct(data, frags, tuple(case.get("idle") or (0,)))
     if got is None:
         r.fail("C17/direct-incomplete", "parseChunk still waiting after all %d bytes" % len(data))
         return
@@ -104,7 +111,7 @@ def run_valid(case, r):
             drive = httpdrive.drive_respondent
         for label, msgs in (("alone", [m2]), ("second-of-two", [m1, m2])):
             data2 = b"".join(httpgen.build(m) for m in msgs)
-            res, left, raised = drive(httpgen.fragments(data2, case["cuts"]))
+            res, left, raised = drive(httpgen.fragments(data2, case["cuts"]), idle=tuple(case.get("idle") or (0,)))
             if raised or len(res) != len(msgs):
                 r.fail("C17/%s-%s-not-decoded" % (kind, label), "raised=%r parsed %d of %d" % (raised, len(res), len(msgs)))
                 return
@@ -216,7 +223,8 @@ def valid_case(draw):
     pack = draw(st.integers(0, 3)) == 0
     if pack:
         spec["exts"] = []
-    return {"k": "valid", "spec": spec, "pack": pack, "cuts": draw(httpgen.cuts())}
+    return {"k": "valid", "spec": spec, "pack": pack, "cuts": draw(httpgen.cuts()),
+            "idle": draw(st.one_of(st.just([0]), st.lists(st.integers(0, 2), min_size=1, max_size=4)))}
 
 
 def invalid_sizes():
